@@ -1,10 +1,12 @@
-import sys, time
+import sys, time, traceback
 sys.path.insert(0,'/verif')
 from mirsym.harness import Run
 from props import c11, boardsym as B
 run = Run('C11'); run.build(); B.check_layout(run.prog)
 sub=run.sub()
-job=eval(sys.argv[1])
 t=time.time()
-c11.worker(sub, job)
-print(round(time.time()-t,1), [(q['id'],q['verdict'],q['seconds']) for q in sub.queries][:12], sub.inconclusive[:3], [v['what'][:300] for v in sub.violations][:3], sub.exec_stats)
+try:
+    c11.worker(sub, eval(sys.argv[1]))
+except Exception:
+    traceback.print_exc()
+print(sys.argv[1], round(time.time()-t,1), len(sub.queries), sub.inconclusive[:3], [v['what'][:200] for v in sub.violations][:3])
